@@ -54,6 +54,7 @@ type World struct {
 	PanicAtShot int // global shot index that panics (-1 never)
 	Shots       []Shot
 	Overlap     []string
+	DeadCtx     []string // shots made with a gun whose Bind-time context was already done
 
 	// schedules
 	SchedFailAt int // NewRPSSchedule call index that fails (-1 never)
@@ -280,6 +281,11 @@ func (g *Gun) Shoot(ammo core.Ammo) {
 	}
 	g.Owner = id
 	g.inShoot = true
+	if g.Bound && g.Deps.Ctx != nil && g.Deps.Ctx.Err() != nil {
+		// the context handed to the gun at Bind lives as long as the run: a started instance keeps firing
+		// until its profile or the ammo ends or the run is cancelled
+		w.DeadCtx = append(w.DeadCtx, fmt.Sprintf("instance %d fires with a gun whose context is already done (%v)", g.Deps.InstanceID, g.Deps.Ctx.Err()))
+	}
 	item := ammo.(int)
 	if w.Acquired[item] != 1 {
 		w.BadRelease = append(w.BadRelease, fmt.Sprintf("item %d shot in state %d", item, w.Acquired[item]))
